@@ -199,13 +199,149 @@ Definition row_of (data : list adata) (i : nat) : list N :=
 Definition lookup (data : list adata) (a : string) : option (list (list N)) :=
   match find (fun d => String.eqb (fst d) a) data with Some (_, vs) => Some vs | None => None end.
 
+(* ---------- large synthetic inputs ----------
+   Point counts around powers of two and chunk sizes (4095 .. 65537).  A case carries only the parameters
+   (n, seed, ...): the harness and this file derive the same records from them ([sbyte], [sword]), and what the
+   implementation returned comes as counts and order-sensitive fingerprints (two polynomial hashes modulo 2^63
+   over Coq's machine integers) of per-field integer codes.  A code is the byte / bit pattern a returned value
+   dequantises from; the harness recovers it from the float (exactly for the dyadic dequantisers, to the nearest
+   byte with a 1e-9 closeness test otherwise, sentinel 999 when no byte matches), so equal fingerprints mean:
+   same count, same order, every field of every point the dequantised value of the expected byte. *)
+From Coq Require Import Uint63.
+Local Open Scope uint63_scope.
+(* everything below runs on Coq's machine integers (63 bit): the values stay far below 2^63, so the
+   arithmetic agrees with the harness's uint64 arithmetic *)
+Definition int_of_N (n : N) : int := match n with N0 => 0 | Npos p => of_pos p end.
+Definition fpt := (int * int)%type.
+Definition fp0 : fpt := (0, 0).
+Definition fps (h : fpt) (x : int) : fpt :=
+  let '(h1, h2) := h in let v := x + 1 in (h1 * 1000003 + v, h2 * 998244353 + v).
+Definition fp_out (h : fpt) : Z * Z := (to_Z (fst h), to_Z (snd h)).
+Definition fp_eqb (a b : Z * Z) : bool := (fst a =? fst b)%Z && (snd a =? snd b)%Z.
+Definition fp_bytes (h : fpt) (l : list N) : fpt := fold_left (fun h x => fps h (int_of_N x)) l h.
+(* g 0 (g 1 ( ... )) in index order: h |-> g (n-1) (... (g 1 (g 0 h))) *)
+Fixpoint fp_loop (k : nat) (i : int) (g : int -> fpt -> fpt) (h : fpt) : fpt :=
+  match k with O => h | S k' => fp_loop k' (i + 1) g (g i h) end.
+Definition fp_over (n : N) (g : int -> fpt -> fpt) (h : fpt) : fpt := fp_loop (N.to_nat n) 0 g h.
+(* the four little-endian bytes of a 32-bit word *)
+Definition fp_le32 (h : fpt) (w : int) : fpt :=
+  fps (fps (fps (fps h (w land 255)) ((w >> 8) land 255)) ((w >> 16) land 255)) ((w >> 24) land 255).
+
+(* synthetic byte of field f of point i; synthetic finite normal float32 word *)
+Definition sbyte (seed i f : int) : int :=
+  let v := 13 * i + 7 * f + seed in (v + (v >> 3) + (v >> 8) + 31 * f) land 255.
+Definition sword (seed i k : int) : int :=
+  let v := 13 * i + k + seed in
+  let mant := (5 * v + (v << 9) + ((v land 127) << 16)) land 8388607 in
+  let ex := 120 + ((v + (v >> 5)) land 15) in
+  let sg := (v >> 2) land 1 in
+  (sg << 31) + (ex << 23) + mant.
+
+(* ---- SPZ: fields 0..8 position bytes, 9 alpha, 10..12 colour, 13..15 scale, 16..18 rotation, 19.. SH ---- *)
+Definition bz_pos24 (seed i k : int) : int :=
+  sbyte seed i (3 * k) + 256 * sbyte seed i (3 * k + 1) + 65536 * sbyte seed i (3 * k + 2).
+(* a finite normal half pattern (exponent 1..30) from two synthetic bytes *)
+Definition bz_half (seed i k : int) : int :=
+  let lo := sbyte seed i (2 * k) in let hi := sbyte seed i (2 * k + 1) in
+  let m := lo + 256 * (hi land 3) in
+  let e := 1 + ((hi >> 2) land 15) + 14 * ((hi >> 6) land 1) in
+  32768 * (hi >> 7) + 1024 * e + m.
+(* fields f, f+1, ..., f+k-1 of point i *)
+Fixpoint fp_fields (k : nat) (seed i f : int) (h : fpt) : fpt :=
+  match k with O => h | S k' => fp_fields k' seed i (f + 1) (fps h (sbyte seed i f)) end.
+Definition bz_pos_bytes (v1 : bool) (seed i : int) (h : fpt) : fpt :=
+  if v1 then
+    let half h k := let p := bz_half seed i k in fps (fps h (p land 255)) (p >> 8) in
+    half (half (half h 0) 1) 2
+  else fp_fields 9 seed i 0 h.
+Definition bz_pos_codes (v1 : bool) (seed i : int) (h : fpt) : fpt :=
+  let c := if v1 then bz_half seed i else bz_pos24 seed i in fps (fps (fps h (c 0)) (c 1)) (c 2).
+Definition bz3 (seed f i : int) (h : fpt) : fpt := fp_fields 3 seed i f h.
+
+Definition dimN (deg : N) : N := N.of_nat (sh_dim deg).
+Definition bz_header (version deg fb n : N) : header :=
+  {| h_magic := magic; h_version := version; h_npoints := n; h_shdeg := deg; h_fb := fb; h_flags := 0; h_reserved := 0 |}.
+(* fingerprint of encode_ref (bz_header ..) (the n synthetic records): planar order *)
+Definition bz_stream_fp (version deg fb n sd : N) : Z * Z :=
+  let seed := int_of_N sd in
+  let v1 := (version =? 1)%N in let dim := sh_dim deg in
+  let h := fp_bytes fp0 (enc_header (bz_header version deg fb n)) in
+  let h := fp_over n (bz_pos_bytes v1 seed) h in
+  let h := fp_over n (fun i h => fps h (sbyte seed i 9)) h in
+  let h := fp_over n (bz3 seed 10) h in
+  let h := fp_over n (bz3 seed 13) h in
+  let h := fp_over n (bz3 seed 16) h in
+  fp_out (fp_over n (fun i => fp_fields (3 * dim) seed i 19) h).
+
+Record bigspz := { z_hdr : header; z_nv3 : N;
+  z_npos : N; z_nalpha : N; z_ncol : N; z_nscale : N; z_nrot : N; z_nsh : list N;
+  z_pos_fp : Z * Z; z_alpha_fp : Z * Z; z_col_fp : Z * Z; z_scale_fp : Z * Z; z_rot_fp : Z * Z;
+  z_sh_fp : Z * Z }.      (* SH codes coefficient-major: SH_0 of every point, then SH_1, ... *)
+
+Definition listN_eqb := list_eqb N.eqb.
+Fixpoint ints_from (k : nat) (a : int) : list int := match k with O => [] | S k' => a :: ints_from k' (a + 1) end.
+Definition bigspz_ok (version deg fb n sd : N) (z : bigspz) : bool :=
+  let seed := int_of_N sd in
+  let v1 := (version =? 1)%N in let dim := sh_dim deg in
+  (header_eqb (z_hdr z) (bz_header version deg fb n)
+  && (z_npos z =? n) && (z_nalpha z =? n) && (z_ncol z =? n) && (z_nscale z =? n) && (z_nrot z =? n)
+  && listN_eqb (z_nsh z) (repeat n dim)
+  && (z_nv3 z =? 3 + N.of_nat dim))%N
+  && fp_eqb (z_pos_fp z) (fp_out (fp_over n (bz_pos_codes v1 seed) fp0))
+  && fp_eqb (z_alpha_fp z) (fp_out (fp_over n (fun i h => fps h (sbyte seed i 9)) fp0))
+  && fp_eqb (z_col_fp z) (fp_out (fp_over n (bz3 seed 10) fp0))
+  && fp_eqb (z_scale_fp z) (fp_out (fp_over n (bz3 seed 13) fp0))
+  && fp_eqb (z_rot_fp z) (fp_out (fp_over n (bz3 seed 16) fp0))
+  && fp_eqb (z_sh_fp z)
+       (fp_out (fold_left (fun h d => fp_over n (bz3 seed (19 + 3 * d)) h) (ints_from dim 0) fp0)).
+
+(* ---- .splat: every quantised input sits in the middle of a step (byte j + 1/2), j = 4k + 1, so that the
+   property's +-1 step still determines floor(byte / 4) = k (coarse codes: the direct oracle) and the model's
+   answer is exactly byte j (exact codes: the correspondence) ---- *)
+Definition bs_k (seed i f : int) : int := sbyte seed i f land 63.
+Definition bs_kop (seed i : int) : int := let k := bs_k seed i 27 in if k =? 63 then 31 else k.   (* opacity byte <= 249 *)
+(* the eight byte fields of point i through [c] (coarse: k itself, exact: 4k+1) *)
+Definition bs_ks (c : int -> int) (seed i : int) (h : fpt) : fpt :=
+  let h := fps (fps (fps h (c (bs_k seed i 24))) (c (bs_k seed i 25))) (c (bs_k seed i 26)) in
+  let h := fps h (c (bs_kop seed i)) in
+  fps (fps (fps (fps h (c (bs_k seed i 28))) (c (bs_k seed i 29))) (c (bs_k seed i 30))) (c (bs_k seed i 31)).
+Definition exactj (k : int) : int := 4 * k + 1.
+Definition bs_pos (f : fpt -> int -> fpt) (seed i : int) (h : fpt) : fpt :=
+  f (f (f h (sword seed i 0)) (sword seed i 1)) (sword seed i 2).
+Definition stab_at (stab : list int) (j : int) : int := nth (Z.to_nat (to_Z (j land 7))) stab 0.
+Definition bs_scale (f : fpt -> int -> fpt) (stab : list int) (seed i : int) (h : fpt) : fpt :=
+  f (f (f h (stab_at stab (i + seed))) (stab_at stab (i + 1 + seed))) (stab_at stab (i + 2 + seed)).
+Definition bs_record (stab : list int) (seed i : int) (h : fpt) : fpt :=
+  bs_ks exactj seed i (bs_scale fp_le32 stab seed i (bs_pos fp_le32 seed i h)).
+
+Record bigsplat := { s_len : N; s_file_fp : Z * Z; s_scale_fp : Z * Z;     (* written file *)
+  s_rd_ok : bool; s_rd_n : N; s_pos_fp : Z * Z; s_coarse_fp : Z * Z; s_exact_fp : Z * Z }.   (* read back *)
+
+(* ---- SplatPly: attribute ai (table order), vertex i, component c |-> float32 word ---- *)
+Definition bp_arity (ai : int) : nat := if ai <? 4 then 3%nat else if ai =? 4 then 4%nat else 1%nat.
+Fixpoint bp_comps (f : fpt -> int -> fpt) (k : nat) (s i c : int) (h : fpt) : fpt :=
+  match k with O => h | S k' => bp_comps f k' s i (c + 1) (f h (sword s i c)) end.
+Definition bp_attr (f : fpt -> int -> fpt) (seed ai i : int) (h : fpt) : fpt :=
+  bp_comps f (bp_arity ai) (seed + 1009 * ai) i 0 h.
+(* present attributes: the six named ones and f_rest_0 .. = table entries 0 .. nattr-1 *)
+Definition bp_row (f : fpt -> int -> fpt) (seed : int) (attrs : list int) (i : int) (h : fpt) : fpt :=
+  fold_left (fun h ai => bp_attr f seed ai i h) attrs h.
+Definition bp_names (nattr : N) : list string := map (fun '(a, _, _) => a) (firstn (N.to_nat nattr) splatply_table).
+Record bigply := { y_props : list string; y_body_len : N; y_body_fp : Z * Z;
+  y_rd_n : N; y_back : list (string * (N * (Z * Z))) }.      (* attribute, (vertices, fp of its float32 words) *)
+Local Close Scope uint63_scope.
+
 (* ---------- cases ---------- *)
 Inductive case :=
 | CSplat (cloud : list isplat) (impl_bytes : list N) (rd_ok : bool) (rd : list osplat)
 | CSplatRead (bytes : list N) (rd_ok : bool) (rd : list osplat)
 | CSpz (h : header) (recs : list prec) (stream : list N) (impl : option ispz)
 | CSpzRaw (stream : list N) (impl : option ispz)
-| CPly (n : nat) (data : list adata) (hdr_props : list string) (body : list N) (back : list adata).
+| CPly (n : nat) (data : list adata) (hdr_props : list string) (body : list N) (back : list adata)
+(* large synthetic inputs (see above) *)
+| CBigSpz (version deg fb n seed : N) (stream_fp : Z * Z) (impl : option bigspz)
+| CBigSplat (n seed : N) (stab : list N) (impl : bigsplat)
+| CBigPly (n seed nattr : N) (impl : bigply).
 
 Definition corr_ok (c : case) : bool :=
   match c with
@@ -220,6 +356,22 @@ Definition corr_ok (c : case) : bool :=
   | CPly n data props body back =>
       list_eqb String.eqb (splatply_props (map fst data)) props
       && bytes_eqb (ply_body (map (row_of data) (seq 0 n))) body
+  | CBigSpz version deg fb n seed sfp impl =>
+      (* the stream handed to the implementation is [encode_ref h ps] of the synthetic records; by
+         SpzProofs.decode_encode_ref / fields_of_nth the model's answer on it is field_i = dequantise (record i),
+         which is what prop_ok compares the implementation with (equal codes are equal dequantised values:
+         SpzProofs, the byte dequantisers are injective) *)
+      fp_eqb sfp (bz_stream_fp version deg fb n seed)
+  | CBigSplat n seed stab z =>
+      (* the model writes exactly byte j for a mid-step input j + 1/2 (SplatProofs.qrot_mid; colour and opacity:
+         half a step of margin against the float64 evaluation) and reads it back as the same byte *)
+      let sd := int_of_N seed in let st := map int_of_N stab in
+      fp_eqb (s_file_fp z) (fp_out (fp_over n (bs_record st sd) fp0))
+      && fp_eqb (s_exact_fp z) (fp_out (fp_over n (bs_ks exactj sd) fp0))
+  | CBigPly n seed nattr z =>
+      list_eqb String.eqb (splatply_props (bp_names nattr)) (y_props z)
+      && fp_eqb (y_body_fp z)
+           (fp_out (fp_over n (bp_row fp_le32 (int_of_N seed) (ints_from (N.to_nat nattr) 0%uint63)) fp0))
   end.
 
 Definition prop_ok (c : case) : bool :=
@@ -241,4 +393,19 @@ Definition prop_ok (c : case) : bool :=
                  | None => Nat.eqb n 0
                  end) data
       && Nat.eqb (length body) (4 * n * length props)
+  | CBigSpz version deg fb n seed _ impl =>
+      match impl with Some z => bigspz_ok version deg fb n seed z | None => false end
+  | CBigSplat n seed stab z =>
+      let sd := int_of_N seed in let st := map int_of_N stab in
+      (s_len z =? 32 * n) && s_rd_ok z && (s_rd_n z =? n)
+      && fp_eqb (s_pos_fp z) (fp_out (fp_over n (bs_pos fps sd) fp0))
+      && fp_eqb (s_scale_fp z) (fp_out (fp_over n (bs_scale fps st sd) fp0))
+      && fp_eqb (s_coarse_fp z) (fp_out (fp_over n (bs_ks (fun k => k) sd) fp0))
+  | CBigPly n seed nattr z =>
+      (y_rd_n z =? n) && (y_body_len z =? 4 * n * N.of_nat (length (y_props z)))
+      && forallb (fun '(ai, name) =>
+                    match find (fun e => String.eqb (fst e) name) (y_back z) with
+                    | Some (_, (cnt, f)) => (cnt =? n) && fp_eqb f (fp_out (fp_over n (bp_attr fps (int_of_N seed) ai) fp0))
+                    | None => false
+                    end) (combine (ints_from (N.to_nat nattr) 0%uint63) (bp_names nattr))
   end.
